@@ -302,31 +302,33 @@ def _clip_result(arr, log, token, what):
     return _axis_of(coords["time"], "time", what)
 
 
-def trace_load_clip(s, e, sr):
+def trace_load_clip(s, e, sr, audio_dir=None):
     import numpy as np
     from soundevent.audio import io as IO
     log, token = [], np.zeros((3, 2))
     rec = _Stub(path=Path("rec.wav"), samplerate=sr, duration=None, uuid="r", channels=2, time_expansion=1.0)
     clip = _Stub(recording=rec, start_time=s, end_time=e, uuid="c")
     with patched(*_io_patches(log, token)):
-        arr = IO.load_clip(clip)
+        arr = IO.load_clip(clip) if audio_dir is None else IO.load_clip(clip, audio_dir=audio_dir)
     axis = _clip_result(arr, log, token, "load_clip")
     call = log[0]
-    _need(Path(call["path"]) == rec.path, "load_clip: path handed to load_audio")
+    _need(Path(call["path"]) == (rec.path if audio_dir is None else Path(audio_dir) / rec.path),
+          "load_clip: path handed to load_audio")
     _need(call["samples"] is not None, "load_clip: no frame count handed to load_audio")
     return (Q.of(call["offset"]), Q.of(call["samples"])) + axis
 
 
-def trace_load_recording(d, sr):
+def trace_load_recording(d, sr, audio_dir=None):
     import numpy as np
     from soundevent.audio import io as IO
     log, token = [], np.zeros((3, 2))
     rec = _Stub(path=Path("rec.wav"), samplerate=sr, duration=d, uuid="r", channels=2, time_expansion=1.0)
     with patched(*_io_patches(log, token)):
-        arr = IO.load_recording(rec)
+        arr = IO.load_recording(rec) if audio_dir is None else IO.load_recording(rec, audio_dir=audio_dir)
     axis = _clip_result(arr, log, token, "load_recording")
     call = log[0]
-    _need(Path(call["path"]) == rec.path, "load_recording: path handed to load_audio")
+    _need(Path(call["path"]) == (rec.path if audio_dir is None else Path(audio_dir) / rec.path),
+          "load_recording: path handed to load_audio")
     off = call["offset"]
     _need(not isinstance(off, st.Sym) and off == 0 and call["samples"] in (None, -1),
           "load_recording: does not read the whole file")
@@ -477,7 +479,7 @@ IMPORTS = ["Proofs.Lemmas.Audio", "SoundeventModel.Tactics"]
 
 
 def register(ctx):
-    """register the seven ties; each is an obligation `∀ inputs, traced = plan`"""
+    """register the nine ties; each is an obligation `∀ inputs, traced = plan`"""
     V = Q.var
     R4, R6 = "Rat × Rat × Rat × Rat", "Rat × Rat × Rat × Rat × Rat × Rat"
     ties = [
@@ -489,7 +491,11 @@ def register(ctx):
          "some (SE.Audio.rangePlan a b st).toTuple", "create_time_range"),
         ("ext_load_clip", lambda: trace_load_clip(V("s"), V("e"), V("sr")), ["s", "e", "sr"], R6,
          "some (SE.Audio.clipPlan sr s e).toTuple", "load_clip"),
+        ("ext_load_clip_dir", lambda: trace_load_clip(V("s"), V("e"), V("sr"), "/audio/dir"), ["s", "e", "sr"], R6,
+         "some (SE.Audio.clipPlan sr s e).toTuple", "load_clip"),
         ("ext_load_recording", lambda: trace_load_recording(V("d"), V("sr")), ["d", "sr"], R4,
+         "some (SE.Audio.recordingPlan sr d).toTuple", "load_recording"),
+        ("ext_load_recording_dir", lambda: trace_load_recording(V("d"), V("sr"), "/audio/dir"), ["d", "sr"], R4,
          "some (SE.Audio.recordingPlan sr d).toTuple", "load_recording"),
         ("ext_resample", lambda: trace_resample(V("n"), V("st"), V("target")), ["n", "st", "target"], "Rat × Rat",
          "some (SE.Audio.resamplePlanTuple n st target)", "resample"),
